@@ -56,6 +56,11 @@ TIE_SEARCH = {
     "collect_if_required_tie": ("TiePacing", "allocate_raw"),
     "collect_tie": ("TiePacing", "allocate_raw"),
     "alloc_glued_is_model": ("TiePacing", "allocate_raw"),
+    "op_greater_tie": ("TieOps", "op_Greater"), "op_less_tie": ("TieOps", "op_Less"), "op_subtract_tie": ("TieOps", "op_Subtract"),
+    "op_multiply_tie": ("TieOps", "op_Multiply"), "op_divide_tie": ("TieOps", "op_Divide"), "op_modulo_tie": ("TieOps", "op_Modulo"),
+    "op_bitwise_and_tie": ("TieOps", "op_BitwiseAnd"), "op_bitwise_or_tie": ("TieOps", "op_BitwiseOr"), "op_bitwise_xor_tie": ("TieOps", "op_BitwiseXor"),
+    "op_shift_left_tie": ("TieOps", "op_BitShiftLeft"), "op_shift_right_tie": ("TieOps", "op_BitShiftRight"),
+    "dispatch_is_the_pinned_table": ("TieOps", "dispatch"), "dispatch_covers_every_opcode": ("TieOps", "dispatch"),
     "precedence_from_discr": ("TieCompiler", "Precedence::from"),
     "precedence_from_panics_iff": ("TieCompiler", "Precedence::from"),
     "precedence_names_are_the_table": ("TieCompiler", "Precedence-enum"),
